@@ -382,7 +382,10 @@ func (c *Ctx) encodersWriteEveryByte() {
 		switch fn.Name() {
 		case "Encode", "encode", "encodeMessage":
 		default:
-			continue
+			// a private helper with a destination parameter that only encoders (or such helpers) call
+			if !c.encoderHelper(fn, 0) {
+				continue
+			}
 		}
 		var dst ssa.Value
 		for _, p := range fn.Params {
@@ -1369,4 +1372,39 @@ func (c *Ctx) isRingMemory(v ssa.Value, d int) bool {
 		return true
 	}
 	return false
+}
+
+// encoderHelper: an unexported function of package message with a []byte parameter whose library callers are all
+// encoders (Encode / encode / encodeMessage) or helpers of the same kind.
+func (c *Ctx) encoderHelper(fn *ssa.Function, d int) bool {
+	if d > 2 || fn.Object() == nil || fn.Object().Exported() {
+		return false
+	}
+	hasDst := false
+	for _, p := range fn.Params {
+		if sl, ok := p.Type().Underlying().(*types.Slice); ok {
+			if bt, ok := sl.Elem().Underlying().(*types.Basic); ok && bt.Kind() == types.Byte {
+				hasDst = true
+			}
+		}
+	}
+	if !hasDst {
+		return false
+	}
+	n := 0
+	for _, s := range c.P.Callers(fn) {
+		host := s.Parent()
+		if host.Synthetic != "" {
+			continue
+		}
+		n++
+		switch host.Name() {
+		case "Encode", "encode", "encodeMessage":
+			continue
+		}
+		if !c.encoderHelper(host, d+1) {
+			return false
+		}
+	}
+	return n > 0
 }
